@@ -7,6 +7,7 @@ Init == /\ fam \in {"filter", "test", "function", "range", "types", "parity", "p
         /\ \/ /\ fam \in {"filter", "test", "function"} /\ fi \in 1..Len(Table(fam))
               /\ recv \in (IF fam = "function" THEN {"none"} ELSE RecvKinds)
               /\ st \in [1..Len(Table(fam)[fi].args) -> ArgStates]
+              /\ \A i \in 1..Len(st) : st[i] = "edge" => Table(fam)[fi].args[i].k \in {"nat", "int"}
            \/ fam = "range" /\ fi \in 0..1 /\ recv = "none" /\ st \in [1..3 -> {-3, -2, -1, 0, 1, 2, 3, 7}]
            \/ fam = "types" /\ fi = 0 /\ recv \in RecvKinds /\ st = <<>>
            \/ fam = "parity" /\ fi = 0 /\ recv = "int" /\ st \in [1..2 -> -7..7] /\ st[2] # 0
